@@ -240,6 +240,11 @@ func genQual(r *core.RNG) qualSpec {
 			}
 		}
 		return qualSpec{n, strings.Join(ls, "\n")}
+	case 5: // a value that begins or ends with a line break
+		if r.Chance(1, 2) {
+			return qualSpec{n, "\n" + genText(r, 1, 5)}
+		}
+		return qualSpec{n, genText(r, 1, 5) + "\n"}
 	case 7: // paragraphs: a blank line inside the value
 		return qualSpec{n, genText(r, 2, 6) + "\n\n" + genText(r, 1, 5) + "\n" + genText(r, 3, 8)}
 	case 0:
@@ -435,7 +440,7 @@ func genRec(r *core.RNG, idx int) recSpec {
 		s.DBLink = append(s.DBLink, [2]string{[]string{"BioProject", "BioSample", "Assembly", "Sequence Read Archive"}[len(s.DBLink)%4], fmt.Sprintf("PRJ%d", r.Intn(99999))})
 	}
 	for i := r.Pick([]int{3, 2, 2, 1, 1}); i > 0; i-- {
-		s.Keywords = append(s.Keywords, []string{"RefSeq", "complete genome", "simulated", "plasmid", "phage", "whole genome shotgun sequencing project"}[r.Intn(6)])
+		s.Keywords = append(s.Keywords, []string{"RefSeq", "complete genome", "simulated", "plasmid", "phage", "whole genome shotgun sequencing project", "Streptomyces sp.", "cf. spp."}[r.Intn(8)])
 	}
 	if r.Chance(1, 12) {
 		for i := 0; i < 8; i++ { // long enough to wrap
@@ -446,7 +451,7 @@ func genRec(r *core.RNG, idx int) recSpec {
 		s.Species = genText(r, 1, 4)
 		s.Organism = genText(r, 1, 4)
 		for i := r.Pick([]int{2, 2, 2, 2}); i > 0; i-- {
-			s.Taxon = append(s.Taxon, []string{"Viruses", "Bacteria", "Proteobacteria", "Microviridae", "Bullavirinae", "Sinsheimervirus", "unclassified sequences"}[r.Intn(7)])
+			s.Taxon = append(s.Taxon, []string{"Viruses", "Bacteria", "Proteobacteria", "Microviridae", "Bullavirinae", "Sinsheimervirus", "unclassified sequences", "Bacillus sp.", "environmental samples"}[r.Intn(9)])
 		}
 		if r.Chance(1, 10) {
 			for i := 0; i < 9; i++ {
